@@ -1261,6 +1261,28 @@ func areaConc(r *Rng, n int, dir string) (*AreaOut, error) {
 		cleanup()
 		hist(out.Hist, "only-once-workers-stop")
 	}
+	// --- a storage fault that lasts: the health tracker's periodic evaluation runs while a failure streak is past
+	// its thresholds; the storage calls that report to the tracker afterwards (every List / Load / Store of the
+	// receiver and the sync loop does) must not block
+	{
+		out.OracleN++
+		ht := healthtracker.New(healthtracker.HealthConfig{EvaluationInterval: time.Second, WarnDuration: 0, ErrorDuration: 0}, "verif_probe", "probe the tracker")
+		ht.AddFailure(errors.New("storage down"))
+		time.Sleep(1300 * time.Millisecond) // one evaluation tick (minimum interval: 1 s) sees the streak past both thresholds
+		doneCh := make(chan struct{})
+		go func() {
+			ht.AddFailure(errors.New("storage still down"))
+			ht.AddSuccess()
+			ht.AddFailure(errors.New("down again"))
+			close(doneCh)
+		}()
+		select {
+		case <-doneCh:
+		case <-time.After(3 * time.Second):
+			out.Oracle = append(out.Oracle, OracleFailure{"C17", "health-tracker-blocks-storage-calls", "after one health evaluation during a failure streak past the warn/error thresholds, HealthTracker.AddFailure / AddSuccess (called by every storage operation of the receiver and the sync loop) did not return within 3 s", nil})
+		}
+		hist(out.Hist, "health-tracker-after-evaluation")
+	}
 
 	// --- storage: child processes
 	nst := 6
